@@ -9,6 +9,7 @@ R3 restart cadence decision table of block_builder_add and reset.
 R4 size gate (T-cmp 19) and agreement of the size estimate with what finish emits.
 R5 offsets: index value = offset before the block's bytes were added; pending_offset starts at
    the initial file offset and grows by exactly the bytes written.
+D  rests on: C16 (the format's integers are these codecs); C17 (the format's checksum is this function) - re-run here as <id>.D.<rule>.
 """
 import re
 from .common import *
@@ -293,6 +294,10 @@ def run(ctx, res):
         if v["rule"] == "C10.R1" and v["site"].startswith("metadata_write:"):
             res.bad("C09.R1", v["site"], v["what"], v["loc"], v["detail"])
 
+
+    # ---- properties this one rests on (re-run here, labelled <this>.D.<rule>) ------------------
+    depends(ctx, res, 'C16', None, "the format's integers are these codecs")
+    depends(ctx, res, 'C17', None, "the format's checksum is this function")
 
 def _crc_definitely_assigned(ctx, res):
     """C09.R2 (second half): the crc field is read by the block-writing function; on every path by which a block
